@@ -151,6 +151,7 @@ def r2(idx, rep):
     rep.check(okp, "R2", f"{fi.file}::ErrorCommsManager.__init__ policy source", "the policy is not taken from the owner's config (the csvpath's when there is one)", K.where(fi, fi.node))
     from . import valmode
     valmode.check(idx, rep, "R2", ["print", "raise", "match", "stop", "fail"])
+    valmode.update_sequence(idx, rep, "R2")
 
 
 def r3(idx, rep):
@@ -339,7 +340,7 @@ def r5(idx, rep):
     # Args.handle_errors_if: a full mismatch either raises ChildrenException (trapped above) or records it
     fa = idx.method("Args", "handle_errors_if")
     rep.analysed(fa)
-    it = Interp(idx, types={"self": "Args"}, unknown_calls="residual",
+    it = Interp(idx, types={"self": "Args"}, unknown_calls="residual", inline_all={"Args"},
                 domains={"self._matchable.matcher.csvpath.match_validation_errors": [None, True, False]},
                 handlers={"ErrorCommsManager": lambda i, c, r, a, k: Obj("ecm"), "ecm.do_i_raise": lambda i, c, r, a, k: i.choose("do_i_raise", [True, False]),
                           "self._matchable.raiseChildrenException": _raise_children, "self._matchable.handle_error": lambda i, c, r, a, k: i.record_call("handle_error"),
@@ -354,9 +355,39 @@ def r5(idx, rep):
                 bad = bad or f"all {nsets} argsets mismatch but no error is raised or recorded ({p.summary()['choices']})"
             if full and am != [False]:
                 bad = bad or f"all argsets mismatch but args_match stores {am}"
+            if full:
+                # record-and-continue only under validation-mode match with a policy (as the ErrorCommsManager of *now* reads it,
+                # validation-mode override included) that does not raise; otherwise raise into the trap
+                dr = p.atom("do_i_raise")
+                mve = p.atom("self._matchable.matcher.csvpath.match_validation_errors")
+                other = [t for t, v in p.choices if t not in ("do_i_raise", "self._matchable.matcher.csvpath.match_validation_errors")]
+                if dr is None or other:
+                    bad = bad or (f"the raise-or-continue decision is not taken from a fresh ErrorCommsManager(csvpath=…).do_i_raise() and match_validation_errors "
+                                  f"(consulted: {[t for t, v in p.choices]}); a cached manager answers from the policy list it saw at construction")
+                else:
+                    want_handle = (not dr) and bool(mve)
+                    if bool(p.calls("handle_error")) != want_handle or (p.result[0] == "raise") == want_handle:
+                        bad = bad or f"do_i_raise={dr} validation-mode match={mve!r}: handled={bool(p.calls('handle_error'))} raised={p.result[0] == 'raise'}, documented handled={want_handle}"
             if not full and (signalled or am):
                 bad = bad or f"{mism}/{nsets} argsets mismatch: an error is signalled although one argset matched"
     rep.check(bad is None, "R5", f"{fa.file}::Args.handle_errors_if table", bad or "", K.where(fa, fa.node))
+    encoder_total(idx, rep, "R5")
+
+
+def encoder_total(idx, rep, rid):
+    """the traps of Expression.matches / Function.matches build `e.json = to_json(...)` inside their except blocks, before handle_error:
+    an exception there escapes the trap for every policy.  The value cleaner the encoder applies to arbitrary run-time values must
+    therefore be total"""
+    fi = idx.method("ExpressionEncoder", "_no_quotes")
+    rep.analysed(fi)
+    bad = None
+    corpus = ["", '"', "'", "a", '"a"', 'a"b', " ", None, 0, 5, 2.5, True, False, [], ["x"], {}]
+    for v in corpus:
+        ps = Interp(idx, types={"self": "ExpressionEncoder"}, unknown_calls="residual").run_all(fi, args={"v": v})
+        for p in ps:
+            if p.result[0] != "return":
+                bad = bad or f"_no_quotes({v!r}) ends in {p.result}: to_json is called inside the error traps before handle_error, so this exception replaces the error being handled and reaches the caller whatever the policy"
+    rep.check(bad is None, rid, f"{fi.file}::ExpressionEncoder._no_quotes is total", bad or f"{len(corpus)} values", K.where(fi, fi.node))
 
 
 def function_matches_table(idx, rep, rid):
